@@ -22,13 +22,13 @@ BLOCK_INV = "block invariant: for each of the six blocks start + size <= data.le
 ROWS = [
     # ---------------- compile set: builder
     ("compiler::build::build::handle_parse_node::{closure#6}", r"K3:index:str", "the text of a Symbol token starts with the one-byte ':' (the lexer classifies text as Symbol only then), so [1..] is in range and on a char boundary"),
-    ("compiler::build::build::", r"K3:index:Vec\[usize\]", "dominated by the validation at the top of build(): parse_root and every left/right link are < parse_tree.len() == nodes.len(); ConditionItem.node_index is such a right link"),
+    ("compiler::build::build::", r"K3:index:Vec\[usize\]", "dominated by the validation at the top of build(): parse_root and every left/right link are < parse_tree.len() == nodes.len(); ConditionItem.node_index is such a right link", ["build-links-validated"]),
     # ---------------- lexer
     ("lex::lexer::Lexer::<'a>::start_token", r"K1:macro:unreachable", "inside `if self.current_operator().is_some()`: the second call on the same unchanged buffer cannot be None"),
     ("lex::lexer::Lexer::<'a>::start_token", r"K2:Overflow\(Add", "row counter, bounded by the input length"),
     ("lex::lexer::Lexer::<'a>::process_char", r"K2:Overflow\(Add", "character / row / column / quote counters, bounded by the input length"),
     ("lex::lexer::Lexer::<'a>::process_char", r"K2:Overflow\(Sub:usize\)", "text_column - 1 in the Float state: the token holds a digit and a '.' of this line, so column >= 2; the two len() - 2 are inside `if len > 2`"),
-    ("lex::lexer::Lexer::<'a>::process_char", r"K3:index:String", "inside `if len > 2`; in the Spaces/Subexpression states the buffer holds only one-byte ASCII whitespace, so len - 2 is a char boundary"),
+    ("lex::lexer::Lexer::<'a>::process_char", r"K3:index:String", "inside `if len > 2`; in the Spaces/Subexpression states the buffer holds only one-byte ASCII whitespace, so len - 2 is a char boundary", ["lexer-whitespace-ascii"]),
     ("lex::lexer::create_operator_tree", r"K1:macro:unreachable", "get_mut of a key that was inserted / found by contains_key two lines above"),
     ("lex::lexer::create_operator_tree", r"K2:Overflow\(Sub:usize\)", "len - 1 is evaluated inside the loop over the spelling's characters, so len >= 1"),
     # ---------------- parser
@@ -71,11 +71,11 @@ ROWS = [
     ("BasicGarnishData::<T, Companion>::get_symbol_string", r"K3:index:Vec\[Range\]", "symbol-table block extent (" + BLOCK_INV + "); the char cells of a name follow its CharList(n) header inside the data block"),
     ("::get_char_list_iter::{closure#0}", r"K1:.*unwrap", "cells after a CharList(n) header are Char cells by construction (parse_add_char_list, add_string, conversions write n cells after writing n)"),
     ("::get_byte_list_iter::{closure#0}", r"K1:.*unwrap", "cells after a ByteList(n) header are Byte cells by construction"),
-    ("::get_char_list_iter", r"K3:index:Vec\[Range\]", "start/end come from extents_to_start_end: both clamped to base+1+len and end >= start since the fix; the n cells of the list lie inside the data block"),
-    ("::get_byte_list_iter", r"K3:index:Vec\[Range\]", "as get_char_list_iter"),
-    ("::get_list_item_iter", r"K3:index:Vec\[Range\]", "as get_char_list_iter; a List(len, _) header is followed by 2*len cells (start_list)"),
-    ("::get_symbol_list_iter", r"K3:index:Vec\[Range\]", "start/end clamped to the list's len cells and end >= start since the fix"),
-    ("::get_concatenation_iter", r"K3:index:Vec\[Range\]", "start/end clamped to items.len() and end >= start since the fix"),
+    ("::get_char_list_iter", r"K3:index:Vec\[Range\]", "start/end come from extents_to_start_end: both clamped to base+1+len and end >= start since the fix; the n cells of the list lie inside the data block", ["range-end-clamped"]),
+    ("::get_byte_list_iter", r"K3:index:Vec\[Range\]", "as get_char_list_iter", ["range-end-clamped"]),
+    ("::get_list_item_iter", r"K3:index:Vec\[Range\]", "as get_char_list_iter; a List(len, _) header is followed by 2*len cells (start_list)", ["range-end-clamped"]),
+    ("::get_symbol_list_iter", r"K3:index:Vec\[Range\]", "start/end clamped to the list's len cells and end >= start since the fix", ["range-end-clamped"]),
+    ("::get_concatenation_iter", r"K3:index:Vec\[Range\]", "start/end clamped to items.len() and end >= start since the fix", ["range-end-clamped"]),
     ("::get_list_item_with_symbol", r"K3:index:Vec\[Range\]", "the association cells are the second len cells of the 2*len cells start_list reserved after the header"),
     ("BasicGarnishData<T, Companion>>::end_list", r"K3:index:Vec\[Range\]", "same 2*len cells reserved by start_list"),
     ("BasicGarnishData<T, Companion>>::pop_frame", r"K2:Overflow\(Sub:usize\)", "push_frame writes the JumpPoint cell immediately before the frame cell, so a frame index is >= 1"),
@@ -105,9 +105,12 @@ def main_():
                 if kd in CLASSES:
                     continue
                 hit = None
-                for sub, kre, reason in ROWS:
+                req = None
+                for row in ROWS:
+                    sub, kre, reason = row[0], row[1], row[2]
                     if sub in p and re.match(kre, kd):
                         hit = reason
+                        req = row[3] if len(row) > 3 else None
                         break
                 if hit is None:
                     uncovered.append((tag, p, kd, [w for w, _t in sites]))
@@ -117,6 +120,8 @@ def main_():
                 if kd in e:
                     n = max(n, e[kd]["count"])
                 e[kd] = {"count": n, "reason": hit}
+                if req:
+                    e[kd]["requires"] = req
     json.dump(out, open(os.path.join(facts.VERIF, "allow", "panic_sites.json"), "w"), indent=1, sort_keys=True)
     print("allow-list: %d functions" % (len(out) - 2))
     print("NOT covered by the review (stay findings):")
